@@ -36,3 +36,13 @@ Definition x_C15_vps_ok (v : val) : val :=
   vbool (pobs_wellformed o && ok_vps (dec_env (nthv 0 c)) (as_bytes (nthv 1 c)) (dec_pobs o)).
 Definition x_C15_vps_bytes (c : val) : val := enc_pobs (go_vps_obs (as_bytes c)).
 Definition x_C15_vps_total_ok (v : val) : val := vbool (pobs_wellformed (nthv 1 v)).
+
+(* D30 witnesses: the last short-term RPS uses inter prediction *)
+Definition x_C15_h265i_emit (c : val) : val :=
+  match emit std_h265_sps_i (dec_env c) env0 with
+  | Some (b, a) => if h265_ranges a && uses_inter_rps a then VL [VB (nal_of_bits b)] else VL []
+  | None => VL []
+  end.
+Definition x_C15_h265i_ok (v : val) : val :=
+  let c := nthv 0 v in let o := nthv 1 v in
+  vbool (obs_wellformed o && ok_h265_i (dec_env (nthv 0 c)) (as_bytes (nthv 1 c)) (dec_vobs o)).
